@@ -168,9 +168,23 @@ Print Assumptions generated_twins_same_shape.
 (* every create function checks every reference column before writing, except (known findings) *)
 Theorem generated_unchecked_columns_only_known :
   subset_str (unchecked_fns all_sigs)
-             ["create_pump_from_parameters"; "create_pressure_control"; "create_pressure_controls"] = true.
+             ["create_pump_from_parameters"] = true.
 Proof. vm_compute. reflexivity. Qed.
 Print Assumptions generated_unchecked_columns_only_known.
+
+(* hence: after ANY sequence of calls of the generated create functions other than create_pump_from_parameters
+   every reference column of every row (checked or not) resolves - full referential integrity *)
+Theorem generated_full_referential_integrity : forall std cs,
+  Forall (fun c => In (call_schema c) all_sigs /\ s_fn (call_schema c) <> "create_pump_from_parameters") cs ->
+  wf_full (run (empty_db std) cs).
+Proof.
+  intros std cs H. apply wf_full_lemma. eapply Forall_impl; [|exact H]. intros c [Hin Hne].
+  assert (A : forallb (fun s => fully_checked s || String.eqb (s_fn s) "create_pump_from_parameters") all_sigs = true)
+    by (vm_compute; reflexivity).
+  rewrite forallb_forall in A. specialize (A _ Hin). apply orb_true_iff in A. destruct A as [A|A]; auto.
+  apply String.eqb_eq in A. contradiction.
+Qed.
+Print Assumptions generated_full_referential_integrity.
 
 (* no create function can fail after its row write, except (geodata handling, known findings) *)
 Theorem generated_late_failures_only_known :
